@@ -677,11 +677,13 @@ Fixpoint exp_loop (thr k : nat) (fuel : nat) (i : Z) (cz : Z) (a x n : ru k) : r
       let x := mod_n thr k (lsquare thr k x) n in
       exp_loop thr k f (i + 1) cz a x n
   end.
+(* a = (n == 1) ? 0 : 1  (repaired start value, frag/C06.fix-8.diff: the only residue modulo 1 is 0) *)
+Definition exp_start (k : nat) (n : ru k) : ru k := if eqb k n (of_Z k 1) then zero k else of_Z k 1.
 Definition exp_mod (thr k : nat) (b c n : ru k) : ru k :=
-  exp_loop thr k (Z.to_nat (nbits k)) 0 (val k c) (of_Z k 1) b n.
+  exp_loop thr k (Z.to_nat (nbits k)) 0 (val k c) (exp_start k n) b n.
 (* exp_mod with an unsigned 64-bit exponent *)
 Definition exp_mod_w (thr k : nat) (b : ru k) (c : Z) (n : ru k) : ru k :=
-  exp_loop thr k 64%nat 0 c (of_Z k 1) b n.
+  exp_loop thr k 64%nat 0 c (exp_start k n) b n.
 
 (* ---- rmgmodule.h: Arazi-Qi inverse modulo 2^(2^K) ---- *)
 Definition arazi0 (a : Z) : Z :=
@@ -717,6 +719,9 @@ Definition rint_to_mpz (k : nat) (a : ru k) : Z :=
   if is_neg k a then - val k (neg k a) else val k a.
 
 (* ---- signed rint<K> (a rint is stored as a ruint): rdiv.h, rmul.h, rcmp.h, rrint.h ---- *)
+(* operator>>=(rint<K>&, count): arithmetic shift (repaired behaviour, frag/C06.fix-7.diff) *)
+Definition sshr (k : nat) (a : ru k) (d : Z) : ru k :=
+  if is_neg k a then lnot k (right_shift k (lnot k a) d) else right_shift k a d.
 Definition sdiv_q (thr k : nat) (a b : ru k) : ru k :=
   if is_neg k a then
     if is_neg k b then fst (div thr k (neg k a) (neg k b))
@@ -829,6 +834,7 @@ Definition mpz_to_ruintZ k b := OUT k (mpz_to_ruint k b).
 Definition mpz_to_rintZ k b := OUT k (mpz_to_rint k b).
 Definition rint_to_mpzZ k a := rint_to_mpz k (IN k a).
 (* signed *)
+Definition sshrZ k a d := OUT k (sshr k (IN k a) d).
 Definition sdiv_qZ thr k a b := OUT k (sdiv_q thr k (IN k a) (IN k b)).
 Definition sdiv_rZ thr k a b := OUT k (sdiv_r thr k (IN k a) (IN k b)).
 Definition slmulZ thr k b c := OUT (S k) (slmul thr k (IN k b) (IN k c)).
